@@ -42,6 +42,9 @@ type e2eSpec struct {
 	JoinEnv  []string `json:"join_env,omitempty"`
 	HostEnv  []string `json:"host_env,omitempty"`
 	TimeoutS int      `json:"timeout_s"`
+	// StallS > 0: give up only when the output directory has not changed for
+	// StallS seconds (TimeoutS is then the outer cap)
+	StallS   int      `json:"stall_s,omitempty"`
 	BinDir   string   `json:"bindir"`
 	WorkDir  string   `json:"workdir"`
 }
@@ -52,6 +55,8 @@ type e2eResult struct {
 	JoinExit     int    `json:"join_exit"`
 	JoinSignaled bool   `json:"join_signaled"`
 	JoinTimedOut bool   `json:"join_timed_out"`
+	// StillProgressing: the outer cap was hit while output or logs still changed (no verdict)
+	StillProgressing bool `json:"still_progressing,omitempty"`
 	HostStatus   string `json:"host_status"` // last status= value printed for the peer
 	JoinCode     string `json:"join_code"`
 	DurMs        int64  `json:"dur_ms"`
@@ -165,9 +170,57 @@ func e2eChild(args []string) int {
 	if to <= 0 {
 		to = 45 * time.Second
 	}
-	select {
-	case <-done:
-	case <-time.After(to):
+	timedOut := false
+	if spec.StallS > 0 {
+		// bounded progress instead of a fixed deadline: the session is given up
+		// only when neither the output directory nor a log has changed for
+		// StallS seconds (TimeoutS stays as an outer cap; hitting the cap while
+		// still progressing is reported separately and is not a hang)
+		sig := func() string {
+			// the logs are not part of the signature: both programs redraw
+			// their progress display periodically even when nothing moves
+			n, bytes, mt := 0, int64(0), int64(0)
+			_ = filepath.Walk(spec.Out, func(_ string, fi os.FileInfo, err error) error {
+				if err == nil {
+					n++
+					bytes += fi.Size()
+					if t := fi.ModTime().UnixNano(); t > mt {
+						mt = t
+					}
+				}
+				return nil
+			})
+			return fmt.Sprintf("%d/%d/%d", n, bytes, mt)
+		}
+		last, lastChange, begin := sig(), time.Now(), time.Now()
+	poll:
+		for {
+			select {
+			case <-done:
+				break poll
+			case <-time.After(500 * time.Millisecond):
+			}
+			if s := sig(); s != last {
+				last, lastChange = s, time.Now()
+			}
+			if time.Since(lastChange) > time.Duration(spec.StallS)*time.Second {
+				timedOut = true
+				break poll
+			}
+			if time.Since(begin) > to {
+				timedOut = true
+				res.StillProgressing = true
+				break poll
+			}
+		}
+	} else {
+		select {
+		case <-done:
+		case <-time.After(to):
+			timedOut = true
+		}
+	}
+	if timedOut {
 		res.JoinTimedOut = true
 		_ = join.Process.Signal(syscall.SIGQUIT)
 		select {
@@ -341,6 +394,8 @@ type e2eCase struct {
 	Addrs    int      `json:"addrs"`
 	V6       bool     `json:"v6"`
 	CS       int64    `json:"cs"`
+	StallS   int      `json:"stall_s,omitempty"`
+	TimeoutS int      `json:"timeout_s,omitempty"`
 }
 
 func genE2ECases(e *Env, n int, tag string, multiAddr bool) []e2eCase {
@@ -374,7 +429,11 @@ func runE2ECases(e *Env, cases []e2eCase, par int, judge func(c e2eCase, r e2eRe
 		c := cases[i]
 		src, out, tree, base := e2eTree(e, c.Seed, c.Shape, c.CS, 300<<10)
 		defer os.RemoveAll(base)
-		r := runSession(e, e2eSpec{ID: c.ID, Src: src, Out: out, HostArgs: c.HostArgs, JoinArgs: c.JoinArgs, Stdin: "y\n", Addrs: c.Addrs, V6: c.V6, TimeoutS: 45, HostEnv: c.HostEnv})
+		to := 45
+		if c.TimeoutS > 0 {
+			to = c.TimeoutS
+		}
+		r := runSession(e, e2eSpec{ID: c.ID, Src: src, Out: out, HostArgs: c.HostArgs, JoinArgs: c.JoinArgs, Stdin: "y\n", Addrs: c.Addrs, V6: c.V6, TimeoutS: to, StallS: c.StallS, HostEnv: c.HostEnv})
 		judge(c, r, tree, out)
 	})
 }
@@ -430,13 +489,31 @@ func runC03E2E(e *Env) {
 		return
 	}
 	cases := genE2ECases(e, e.Pick(6, 60), "C03e2e", false)
+	// trees of thousands of tiny files: the per-file work of the application
+	// layer (progress display, acknowledgement bookkeeping) runs thousands of
+	// times against its periodic tickers; judged by bounded progress (no change
+	// of the output directory for 20 s), not by a deadline
+	for i := 0; i < e.Pick(2, 8); i++ {
+		c := e2eCase{ID: fmt.Sprintf("C03e2e-tiny-%d", i), Shape: "manytiny", Seed: vk.Mix(e.Seed + uint64(i)*977), Addrs: 1, CS: 65536, StallS: 20, TimeoutS: 400}
+		if i%2 == 1 {
+			c.HostArgs = []string{"--total-streams", "8", "--total-connections", "2"}
+		}
+		cases = append(cases, c)
+	}
 	runE2ECases(e, cases, 8, func(c e2eCase, r e2eResult, tree vk.Tree, out string) {
 		e.R.Eval()
 		if r.SetupErr != "" {
 			e.R.Inconcl(c.ID + ": " + r.SetupErr)
 			return
 		}
+		if r.StillProgressing {
+			e.R.Inconcl(c.ID + ": outer cap reached while the output directory was still changing")
+			return
+		}
 		e.R.Distinct(c.Shape + "/" + strings.Join(c.HostArgs, " "))
+		if c.Shape == "manytiny" && sessionOK(r) {
+			e.R.Count("completed_manytiny")
+		}
 		if !sessionOK(r) {
 			mode := "error"
 			if r.JoinTimedOut {
@@ -454,6 +531,7 @@ func runC03E2E(e *Env) {
 		e.R.Sample(map[string]any{"case": c, "dur_ms": r.DurMs})
 	})
 	e.R.Require(e.R.Counter("completed") >= e.Pick(4, 45), fmt.Sprintf("only %d sessions completed", e.R.Counter("completed")))
+	e.R.Require(e.R.Counter("completed_manytiny")+len(e.R.Violations) >= 1, "no session over thousands of tiny files reached a verdict")
 }
 
 // ---- C09(b): accepting side under several local addresses ----------------------
